@@ -7,8 +7,8 @@
    not yet covered by a theorem are decided by the implementation <-> specification <->
    hardware differential run only (listed as unproved_forms in the evidence). *)
 From Coq Require Import ZArith Bool List.
-From AxV Require Import Bits Outcome Codes Iced State Rt Mem Trace Exec ExecP FrameTac FrameP ISA CodeSem IsaP ControlFlow TraceP CfP CfStepP Examples.
-From AxG Require Import Flags Regs Operand Helpers Dispatch Frame I_jmp.
+From AxV Require Import Bits Outcome Codes Iced State Rt Mem Trace Exec ExecP FrameTac FrameP ISA CodeSem IsaP ControlFlow TraceP CfP CfStepP RegFile RegsP ByteStore OperandP RmP StackP CallRetP ReadonlyTac RipOnlyTac Examples.
+From AxG Require Import Flags Regs Operand Helpers Dispatch Frame RipOnly I_jmp I_call.
 Local Open Scope Z_scope.
 
 Print Assumptions cond_matches_sdm.
@@ -36,6 +36,43 @@ Proof. exact rel_branch_refines_isa. Qed.
 
 Print Assumptions C03_relative_branches.
 
+(* every relative jump form (Jcc rel8/rel32, JMP rel8/rel32, JRCXZ, JECXZ - the list is read from the
+   regenerated text, gen/RipOnly.v) leaves memory, the vector registers, the flags, the segment bases
+   and every general register other than RIP exactly as they were, taken or not, in every build
+   configuration.  Together with C03_relative_branches (the new RIP is the specification's) this is the
+   complete data effect of a relative jump. *)
+Theorem C03_jumps_touch_only_rip : forall c i, Forall (fun f => ripo (f c i)) jump_functions.
+Proof. exact jump_functions_rip_only. Qed.
+Theorem C03_jump_function_count : length jump_functions = 37%nat.
+Proof. reflexivity. Qed.
+
+(* indirect JMP r/m64: the target is the 64-bit register or the eight bytes at the operand's address;
+   RIP takes it, one jump event is logged, no other register, flag or memory byte changes; an
+   unreadable operand fails the step and changes nothing; against the specification the only
+   difference is the missing #GP on a non-canonical target (the known finding below) *)
+Theorem C03_jmp_rm64 : forall c i s,
+  i_code i = C_Jmp_rm64 -> wf_regs s -> Inv (mem s) -> 0 < i_op_count i -> rm64_shape i 0 -> pre i s ->
+  match isa_exec SJmpRm i s with
+  | IDone s1 _ => exists s', instr_jmp_rm64 c i s = (Ok tt, s') /\ same_data s' s1 /\ recorded i s s' TJump
+  | IFault FMem => exists e, instr_jmp_rm64 c i s = (Err e, s)
+  | IFault FBranch => True
+  | IFault _ => False
+  end.
+Proof. exact jmp_rm64_refines. Qed.
+
+(* indirect CALL r/m64: target read first, then the call as CALL rel32 (C04_call_rel32) *)
+Theorem C03_call_rm64 : forall c i s,
+  i_code i = C_Call_rm64 -> wf_regs s -> Inv (mem s) -> 0 < i_op_count i -> rm64_shape i 0 -> pre i s ->
+  match read_op i 0 64 s with
+  | Some t =>
+      match emu_push 8 (regs s RIP) s with
+      | Some s1 => exists s', instr_call_rm64 c i s = (Ok tt, s') /\ same_data s' (set_rip s1 t) /\ recorded i s s' TCall
+      | None => exists e, instr_call_rm64 c i s = (Err e, s)
+      end
+  | None => exists e, instr_call_rm64 c i s = (Err e, s)
+  end.
+Proof. exact call_rm64_exact. Qed.
+
 (* the full statement - "a branch does what the CPU does" - is false of the faithful model on
    non-canonical targets; this is known finding KF-C03-noncanonical-target, stated with its
    witness: JMP rel32 to 2^47 faults on the CPU (#GP) and completes in the emulator, in every build
@@ -51,3 +88,6 @@ Theorem C03_noncanonical_target_refuted :
 Proof. exact jmp_noncanonical_target_refuted. Qed.
 
 Print Assumptions C03_noncanonical_target_refuted.
+Print Assumptions C03_jmp_rm64.
+Print Assumptions C03_call_rm64.
+Print Assumptions C03_jumps_touch_only_rip.
